@@ -170,17 +170,30 @@ def check_poly(c):
         for scale in c['scales']:
             for shift in c['shifts']:
                 res.ev()
-                sh = shift if isinstance(shift, (int, float)) else shift[:d]
+                sh = shift if isinstance(shift, (int, float, str)) else shift[:d]
                 case = dict(shape=shape, power=power, scale=scale, shift=sh, powers=[power], scales=[scale], shifts=[shift])
-                Y = teneva.poly(shape, sh, power, scale)
+                try:
+                    Y = teneva.poly(shape, sh if not isinstance(sh, str) else np.arange(1, d + 1, dtype=np.int64), power, scale)
+                except Exception as ex:
+                    res.fail('poly.raised', case, 'poly raised %s: %s' % (type(ex).__name__, str(ex)[:120]))
+                    continue
                 if not res.check(ref.wellformed(Y, shape) is None, 'poly.shape', case, 'malformed'):
                     continue
                 A = ref.dense(Y)
+                if isinstance(sh, str):          # integer-typed ndarray shift (no float conversion by the caller)
+                    sh = np.arange(1, d + 1, dtype=np.int64)
+                    case['shift'] = 'int64 ndarray 1..d'
+                    Y = teneva.poly(shape, sh, power, scale)
+                    A = ref.dense(Y)
                 sv = np.array([sh] * d if isinstance(sh, (int, float)) else sh, dtype=float)
-                E = scale * np.sum((grid + sv) ** power, axis=1)
+                if power < 0 and np.any((grid + sv) == 0):
+                    res.skip('negative power of a zero base')
+                    continue
+                E = scale * np.sum((grid + sv) ** float(power), axis=1)
                 W = A[tuple(grid.T)]
                 exact = all(float(x) == int(x) for x in sv) and float(scale) == int(scale)
-                res.check(np.array_equal(W, E) if exact else np.allclose(W, E, rtol=1e-13, atol=1e-13 * np.abs(E).max()), 'poly.value', case,
+                exact = exact and 0 <= power <= 3
+                res.check(np.array_equal(W, E) if exact else np.allclose(W, E, rtol=1e-12, atol=1e-12 * np.abs(E).max()), 'poly.value', case,
                           lambda: 'poly differs: max dev %.3e' % np.abs(W - E).max())
                 if power >= 1:
                     res.nt((shape, power, scale, sh))
@@ -289,10 +302,10 @@ def strata(tier, seed):
     yield Stratum('const', cs, 'const', size=len(cs), chunk=1, bounds={'zero-list length': '<= 3', 'protected': 'every index or none'})
     ds = [dict(shape=s, vs=[1.0, -2.5, 0.0, 1e-300]) for d in (2, 3, 4) for s in space.shapes([d], [1, 2, 3]) if tier != 'quick' or d < 4 or max(s) <= 2]
     yield Stratum('delta', ds, 'delta', size=len(ds), chunk=8, bounds={'positions': 'all incl. negative'})
-    qs = [dict(kind='vector', q=q, vs=[1.0, -2.0, 0.5]) for q in range(1, 9)] + \
-         [dict(kind='matrix', q=q, vs=[1.0, -3.0]) for q in range(1, (4 if tier == 'quick' else 5))]
+    qs = [dict(kind='vector', q=q, vs=[1.0, -2.0, 0.5, 0.0, 1e-17, -3e-200, 1e200]) for q in range(1, 9)] + \
+         [dict(kind='matrix', q=q, vs=[1.0, -3.0, 1e-17, 0.0]) for q in range(1, (4 if tier == 'quick' else 5))]
     yield Stratum('qtt delta vector / matrix', qs, 'qdelta', size=len(qs), chunk=1, bounds={'vector q': '1..8', 'matrix q': '1..%d' % (3 if tier == 'quick' else 4)})
-    ps = [dict(shape=s, powers=[0, 1, 2, 3], scales=[1.0, 2.0, -0.5], shifts=[0., 1., -2., 0.5, [1., 0., 2., 3., 1.], [0.25, -1., 1.5, 0., 2.]])
+    ps = [dict(shape=s, powers=[0, 1, 2, 3, 25, -1], scales=[1.0, 2.0, -0.5], shifts=[0., 1., -2.5, 0.5, [1., 0.5, 2., 3., 1.], [0.25, -1.5, 1.5, 0.5, 2.], 'intarray'])
           for d in (2, 3, 4) for s in space.shapes([d], [1, 2, 3]) if d < 4 or max(s) <= 2 or tier != 'quick']
     yield Stratum('poly', ps, 'poly', size=len(ps), chunk=8, bounds={'power': [0, 3]})
     rs = []
